@@ -239,12 +239,22 @@ Definition gvd (s : st) : list nat := 0 :: cumsum_from 0 (sizes s).
 
 Definition arange (a b : nat) : list nat := seq a (b - a).
 
+(* The ValueError message of dofs_of formats the system with __str__, which asserts that
+   all variables of one name live on the same kind of grid (subdomains or interfaces). *)
+Definition is_sd (d : dom) : bool := match d with Sd _ => true | Intf _ => false end.
+Definition str_asserts (s : st) : bool :=
+  existsb (fun v => existsb (fun w => Nat.eqb (vname v) (vname w) &&
+                                      negb (Bool.eqb (is_sd (vdom v)) (is_sd (vdom w))))
+                            (vars s)) (vars s).
+Definition unknown_variable_error (s : st) : err :=
+  if str_asserts s then AssertErr else ValueErr.
+
 Fixpoint dofs_loop (s : st) (ids : list nat) : list nat + err :=
   match ids with
   | [] => inl []
   | id :: r =>
       match lookup (numbers s) id with
-      | None => inr ValueErr
+      | None => inr (unknown_variable_error s)
       | Some k =>
           match nth_error (gvd s) k, nth_error (gvd s) (S k) with
           | Some a, Some b =>
@@ -468,10 +478,20 @@ Inductive obs :=
 | BIdx (l : list Z)
 | BVarId (id : Z)
 | BProj (rows : list (list (Z * Z))) (ncols : Z)   (* per row: (column, value) of nonzeros *)
+| BProjCols (cols : list Z) (ncols : Z)   (* every row has exactly one nonzero, a 1, in cols[i] *)
 | BVals (l : list Z)
 | BNumDofs (n : Z)
 | BSnap (n : Z) (dofs : list (option (list Z))) (owners : list (option Z)) (below above : bool)
 | BErr (e : err).
+
+(* lossless run encodings used by the harness to keep the generated literals small:
+   a list of integers as maximal runs (start, length) of consecutive values, a list of
+   optional integers as (value, repetitions) *)
+Definition zrange (a : Z) (n : Z) : list Z :=
+  map (fun k => (a + Z.of_nat k)%Z) (seq 0 (Z.to_nat n)).
+Definition zruns (l : list (Z * Z)) : list Z := flat_map (fun p => zrange (fst p) (snd p)) l.
+Definition orep (l : list (option Z * Z)) : list (option Z) :=
+  flat_map (fun p => repeat (fst p) (Z.to_nat (snd p))) l.
 
 Fixpoint eqb_list {A B} (f : A -> B -> bool) (a : list A) (b : list B) : bool :=
   match a, b with
@@ -506,6 +526,7 @@ Definition agree_out (m : out) (b : obs) : bool :=
       Z.eqb (Z.of_nat n) n' &&
       eqb_list (eqb_list (fun p q => Z.eqb (fst p) (fst q) && Z.eqb (snd p) (snd q)))
                (map (fun c => [(Z.of_nat c, 1%Z)]) cols) rows
+  | OProjM cols n, BProjCols cols' n' => Z.eqb (Z.of_nat n) n' && eqb_zl (zn cols) cols'
   | OVals a, BVals c => eqb_zl a c
   | ONumDofs a, BNumDofs c => Z.eqb (Z.of_nat a) c
   | OSnap n d o lo hi, BSnap n' d' o' lo' hi' =>
